@@ -268,7 +268,7 @@ fn backend<B: Backend, P: Prims>(opts: &Opts, rep: &mut Report) {
     let stream = format!("c08.{}", B::NAME);
     let mut idx = 0u64;
     // --- generated valid keys of every kind
-    let n = if B::VER == 1 { opts.size(40, 300) } else { opts.size(1500, 30000) };
+    let n = if B::VER == 1 { opts.size(60, 400) } else { opts.size(5000, 60000) };
     for _ in 0..n {
         idx += 1;
         if !opts.mine(idx) {
@@ -337,7 +337,7 @@ fn backend<B: Backend, P: Prims>(opts: &Opts, rep: &mut Report) {
         2 | 4 => &[(Kind::Public, 32), (Kind::PkePublic, 32), (Kind::Secret, 64), (Kind::PkeSecret, 64), (Kind::Local, 32)],
         _ => &[(Kind::Local, 32)],
     };
-    for _ in 0..opts.size(3000, 60000) {
+    for _ in 0..opts.size(12000, 200000) {
         idx += 1;
         if !opts.mine(idx) {
             continue;
